@@ -15,7 +15,7 @@ import (
 
 func init() {
 	Registry["C05"] = Set{
-		Explanation: "Decides the structural clauses of 'terminates once, with the right reason, finally': T1 every teardown site (unregisterProcess, ProcessTerminate, meta Terminate) is reached only by the single finaliser elected by swap->Terminated with the old value tested, and an outsider finalises only when no runner can exist (typestate + enum value sets, shared with C01.P5); T2 at each teardown site the reason handed to the registry/links and to the terminate callback have the same origin and that origin is the cause (ProcessRun's result, TerminateReasonPanic in recover handlers, TerminateReasonKill on the kill paths); T3 Terminated is absorbing: no CAS expects Terminated/Zombee, a swap that may overwrite Terminated restores it; T4 every MessageExit* arm of the behaviours that return the reason directly (Actor, Pool, WebWorker) returns an error wrapping that message's Reason (ErrNoConnection for node exits) or, when trapping, re-dispatches as a regular message — for MessageExitPID only if the sender is not the parent; T5 every ProcessInit/ProcessRun implementation and the runner install a deferred recover that yields TerminateReasonPanic. Added while probing: T2 for the meta handler the reason's origin set must be exactly {HandleMessage result, HandleCall result, the exit message's reason} (plus the recover constant); T6 after a handler callback no further handler callback is reachable without consulting the state word (a terminated process handles nothing more); T7 unregisterProcess/unregisterSpawnName hand their reason parameter to every fan-out they start.",
+		Explanation: "Decides the structural clauses of 'terminates once, with the right reason, finally': T1 every teardown site (unregisterProcess, ProcessTerminate, meta Terminate) is reached only by the single finaliser elected by swap->Terminated with the old value tested, and an outsider finalises only when no runner can exist (typestate + enum value sets, shared with C01.P5); T2 at each teardown site the reason handed to the registry/links and to the terminate callback have the same origin and that origin is the cause (ProcessRun's result, TerminateReasonPanic in recover handlers, TerminateReasonKill on the kill paths); T3 Terminated is absorbing: no CAS expects Terminated/Zombee, a swap that may overwrite Terminated restores it; T4 every MessageExit* arm of the behaviours that return the reason directly (Actor, Pool, WebWorker) returns an error wrapping that message's Reason (ErrNoConnection for node exits) or, when trapping, re-dispatches as a regular message — for MessageExitPID only if the sender is not the parent; T5 every ProcessInit/ProcessRun implementation and the runner install a deferred recover that yields TerminateReasonPanic. Added while probing: T2 for the meta handler the reason's origin set must be exactly {HandleMessage result, HandleCall result, the exit message's reason} (plus the recover constant); T6 after a handler callback no further handler callback is reachable without consulting the state word (a terminated process handles nothing more); T7 unregisterProcess/unregisterSpawnName hand their reason parameter to every fan-out they start. T1h when the runner's release CAS fails (the word was taken over by Kill or by the meta start goroutine, which by T1 did not tear down a live runner) every path to the end of the runner passes a teardown or the lost-election edge of a swap: a handed-over termination is finished. T2 follows the reason through the reason-forwarding methods of the meta process (finalize, terminated) and the hand-over field: the mailbox goroutine's own teardown names {HandleMessage, HandleCall results, exit message reason}, the handed-over one {Start result, normal when nil, panic}, recover handlers panic.",
 		NotDecided: []string{
 			"that nothing of the process runs afterwards in goroutines the user started",
 			"the supervisor's own exit handling (its state machines; see C08)",
@@ -37,11 +37,13 @@ func runC05(p *load.Program, r *core.Report) {
 	tmp := core.NewReport("C05")
 	checkWord(a, tmp, "C05p", procWordSpec(a), a.ProcLoop, a.ProcWake, procClassify(a))
 	checkWord(a, tmp, "C05m", metaWordSpec(a), a.MetaLoop, a.MetaWake, metaClassify(a))
-	copyRules(tmp, r, map[string]string{"P5": "T1", "T3": "T3"})
+	copyRules(tmp, r, map[string]string{"P5": "T1", "T3": "T3", "P5h": "T1h"})
 	r.Floor("C05p.T1", 8)
-	r.Floor("C05m.T1", 4)
+	r.Floor("C05m.T1", 5)
 	r.Floor("C05p.T3", 6)
 	r.Floor("C05m.T3", 3)
+	r.Floor("C05p.T1h", 1)
+	r.Floor("C05m.T1h", 1)
 	c05Reasons(a, r)
 	c05ReasonForwarded(a, r)
 	c05ExitArms(a, r)
@@ -222,7 +224,7 @@ func sortStrings(s []string) {
 // c05Reasons: T2
 func c05Reasons(a *Anchors, r *core.Report) {
 	rule := "C05.T2 reason-agreement"
-	r.Floor(rule, 9)
+	r.Floor(rule, 13)
 	pc := procClassify(a)
 	mc := metaClassify(a)
 	type site struct {
@@ -344,6 +346,215 @@ func c05Reasons(a *Anchors, r *core.Report) {
 		}
 	}
 	// process: unregisterProcess and ProcessTerminate in Kill are in different functions (closure) — checked above separately with want=Kill.
+
+	// meta: teardown reached through reason-forwarding methods (finalize(reason), terminated(reason)):
+	// the forwarders hand their parameter on unchanged (their own sites are judged above: origin
+	// param), every call from outside the chain is a teardown site whose argument must name the cause.
+	fwd := map[*ssa.Function]*ssa.Parameter{}
+	isTeardownArg := func(f *ssa.Function, par *ssa.Parameter) bool {
+		found := false
+		eachInstr(f, func(in ssa.Instruction) {
+			cc := callCommon(in)
+			if cc == nil || len(cc.Args) == 0 {
+				return
+			}
+			last := cc.Args[len(cc.Args)-1]
+			if last != ssa.Value(par) {
+				return
+			}
+			if cb := mc(in); cb != nil && cb.kind == "term" {
+				found = true
+			}
+			if sf := staticCallee(cc); sf != nil && fwd[sf] != nil {
+				found = true
+			}
+		})
+		return found
+	}
+	for changed := true; changed; {
+		changed = false
+		for _, f := range a.P.SrcFuncs {
+			if f.Parent() != nil || !recvIs(f, a.MetaT) || fwd[f] != nil {
+				continue
+			}
+			par := paramOfType(f, "error", 0)
+			if par == nil {
+				continue
+			}
+			if isTeardownArg(f, par) {
+				fwd[f] = par
+				changed = true
+			}
+		}
+	}
+	// origins of a meta field that carries a reason across goroutines (the hand-over cell)
+	var deep func(o string, depth int) map[string]bool
+	paramOrigins := func(f *ssa.Function, par *ssa.Parameter, depth int) map[string]bool {
+		out := map[string]bool{}
+		idx := -1
+		for i, q := range f.Params {
+			if q == par {
+				idx = i
+			}
+		}
+		for _, g := range a.P.SrcFuncs {
+			eachInstr(g, func(in ssa.Instruction) {
+				cc := callCommon(in)
+				if cc == nil || staticCallee(cc) != f || idx < 0 || idx >= len(cc.Args) {
+					return
+				}
+				for o := range deep(reasonOrigin(cc.Args[idx], 0), depth+1) {
+					out[o] = true
+				}
+			})
+		}
+		return out
+	}
+	deep = func(o string, depth int) map[string]bool {
+		out := map[string]bool{}
+		for _, part := range strings.Split(o, "+") {
+			switch {
+			case depth > 4:
+				out["?"] = true
+			case strings.HasPrefix(part, "field:") && part != "field:Message":
+				fld := strings.TrimPrefix(part, "field:")
+				n := 0
+				for _, g := range a.P.SrcFuncs {
+					eachInstr(g, func(in ssa.Instruction) {
+						st, ok := in.(*ssa.Store)
+						if !ok {
+							return
+						}
+						if own, fl := fieldOwner(st.Addr); own != a.MetaT || fl != fld {
+							return
+						}
+						n++
+						if par, ok := st.Val.(*ssa.Parameter); ok && fwd[g] == par {
+							for x := range paramOrigins(g, par, depth) {
+								out[x] = true
+							}
+							return
+						}
+						for x := range deep(reasonOrigin(st.Val, 0), depth+1) {
+							out[x] = true
+						}
+					})
+				}
+				if n == 0 {
+					out["?"] = true
+				}
+			default:
+				out[part] = true
+			}
+		}
+		return out
+	}
+	setStr := func(m map[string]bool) string {
+		var ks []string
+		for k := range m {
+			ks = append(ks, k)
+		}
+		sortStrings(ks)
+		return strings.Join(ks, "+")
+	}
+	seq := map[string]int{}
+	for _, f := range a.P.SrcFuncs {
+		eachInstr(f, func(in ssa.Instruction) {
+			cc := callCommon(in)
+			if cc == nil {
+				return
+			}
+			sf := staticCallee(cc)
+			if sf == nil || fwd[sf] == nil {
+				return
+			}
+			idx := -1
+			for i, q := range sf.Params {
+				if q == fwd[sf] {
+					idx = i
+				}
+			}
+			arg := cc.Args[idx]
+			fn := fname(f)
+			seq[fn]++
+			key := fmt.Sprintf("C05.T2|%s|%s-call#%d", fn, sf.Name(), seq[fn])
+			pos := a.P.Pos(in.Pos())
+			inst := "the reason handed to the meta process's teardown (" + sf.Name() + ") names the cause"
+			if fwd[f] != nil {
+				// inside the chain: the parameter is handed on unchanged
+				if arg == ssa.Value(fwd[f]) {
+					r.OK(rule, key, fn, pos, inst, "forwards its own reason parameter")
+				} else {
+					r.Bad(rule, key, fn, pos, inst, "a reason-forwarding method hands on "+reasonOrigin(arg, 0)+" instead of the reason it was given")
+				}
+				return
+			}
+			first := reasonOrigin(arg, 0)
+			have := deep(first, 0)
+			check := func(must []string, may []string) string {
+				h := map[string]bool{}
+				for k := range have {
+					h[k] = true
+				}
+				problem := ""
+				for _, m := range must {
+					if !h[m] {
+						problem += "origin " + m + " is missing; "
+					}
+					delete(h, m)
+				}
+				for _, m := range may {
+					delete(h, m)
+				}
+				for o := range h {
+					problem += "unexpected origin " + o + "; "
+				}
+				return problem
+			}
+			problem := ""
+			startSet := []string{"call:Start"}
+			startMay := []string{"global:TerminateReasonNormal", "global:TerminateReasonPanic"}
+			switch {
+			case have["?"]:
+				r.Unk(rule, key, fn, pos, inst, "cannot determine the origin of the reason: "+first)
+				return
+			case isRecoverClosure(f):
+				problem = check([]string{"global:TerminateReasonPanic"}, nil)
+			case f == a.MetaLoop && strings.HasPrefix(first, "field:") && first != "field:Message":
+				// the hand-over cell: written by the goroutine that runs Start
+				problem = check(startSet, startMay)
+			case f == a.MetaLoop:
+				problem = check([]string{"call:HandleMessage", "call:HandleCall", "field:Message"}, []string{"global:TerminateReasonPanic"})
+			default:
+				problem = check(startSet, []string{"global:TerminateReasonNormal"})
+			}
+			if problem != "" {
+				r.Bad(rule, key, fn, pos, inst, "reason is "+setStr(have)+": "+problem+"links, monitors and the Terminate callback would be told a reason that is not the cause")
+			} else {
+				r.OK(rule, key, fn, pos, inst, setStr(have))
+			}
+		})
+	}
+	// the hand-over cell is written with the forwarder's parameter only
+	for f, par := range fwd {
+		eachInstr(f, func(in ssa.Instruction) {
+			st, ok := in.(*ssa.Store)
+			if !ok {
+				return
+			}
+			own, fl := fieldOwner(st.Addr)
+			if own != a.MetaT || st.Val.Type().String() != "error" {
+				return
+			}
+			key := "C05.T2|" + fname(f) + "|handover:" + fl
+			inst := "the reason handed over to the mailbox goroutine is the reason the caller gave"
+			if st.Val == ssa.Value(par) {
+				r.OK(rule, key, fname(f), a.P.Pos(in.Pos()), inst, "stores its reason parameter")
+			} else {
+				r.Bad(rule, key, fname(f), a.P.Pos(in.Pos()), inst, "stores "+reasonOrigin(st.Val, 0)+" instead of the reason parameter")
+			}
+		})
+	}
 }
 
 // c05ReasonForwarded: T7 — the functions that release a process's identities hand the reason they
